@@ -251,6 +251,9 @@ struct C18 : Profile {
             case 4: row.push_back(json{{"t", "bool"}, {"v", r.chance(0.5)}}); break; case 5: row.push_back(json{{"t", "nullint"}}); break; default: row.push_back(json{{"t", "nullstr"}}); } }
         rows.push_back(row); }
       plan["rows"] = rows;
+      // the handle as a state machine: prepared-statement life cycle, close and re-open in any order (no model of the results: memory safety and the stored rows are the oracle)
+      json so = json::array(); if (r.chance(0.6)) { int n = (int)r.range(1, 10); for (int i = 0; i < n; ++i) so.push_back((int)r.below(14)); }
+      plan["stmt_ops"] = so;
     }
     return plan;
   }
@@ -390,6 +393,25 @@ struct C18 : Profile {
         tupargs += ", " + v; }
       s += "print \"I:\" d.exec(\"insert into t values(?,?,?,?,?,?)\", tup(" + tupargs + "));\n";
     }
+    { json so = plan.value("stmt_ops", json::array());
+      if (!so.empty()) { s += "print \"T2:\" d.exec(\"create table t2(x)\");\nfr = tup();\n"; res.nontrivial = true; }
+      for (auto& o : so) { ++res.probes["sqlite_handle_ops"]; s += "begin\n";
+        switch (o.get<int>()) {
+        case 0: s += "print \"sp:\" d.prepare(\"select k, a from t order by k\");\n"; break;
+        case 1: s += "print \"ip:\" d.prepare(\"insert into t2 values(?)\");\n"; break;
+        case 2: s += "print \"bp:\" d.prepare(\"selec nonsense from\");\n"; break;
+        case 3: s += "print \"bi:\" d.bind(tup(7));\n"; break;
+        case 4: s += "print \"ex:\" d.execute();\n"; break;
+        case 5: case 6: s += "print \"fe:\" d.fetch(fr);\n"; break;
+        case 7: s += "print \"he:\" isnull(d.header());\n"; break;
+        case 8: s += "print \"fi:\" d.finalize();\n"; break;
+        case 9: s += "print \"cl:\" d.close();\n"; ++res.probes["sqlite_close_in_history"]; break;
+        case 10: s += "print \"op:\" d.open(\"" + db + "\");\n"; break;
+        case 11: s += "print \"io:\" d.isopen() d.errmsg().count();\n"; break;
+        case 12: s += "d2 = sqlite3(d);\nprint \"c2:\" d2.isopen();\nd2 = null;\n"; break;
+        default: s += "print \"qx:\" isnull(d.query(\"select count(*) from t2\"));\n"; break; }
+        s += "exception\nwhen others then\n  print \"module error\";\nend;\n"; }
+      if (!so.empty()) s += "if not d.isopen() then\n  print \"ro:\" d.open(\"" + db + "\");\nend if;\nprint \"fz:\" d.finalize();\n"; }
     s += "rs = d.query(\"select a, b, c, d, e from t order by k\");\nprint \"R:\" rs.count();\n";
     s += "forall rw in rs loop\n  put typeof(rw@1) \"|\" typeof(rw@2) \"|\" typeof(rw@3) \"|\" typeof(rw@4) \"|\" typeof(rw@5);\n  print;\nend loop;\n";
     // the content the script reads back, column by column (strings and bytes as byte codes)
@@ -402,6 +424,9 @@ struct C18 : Profile {
         else if (t == "nullint" || t == "nullstr") { s += "print \"" + tag + "\" isnull(rw@" + std::to_string(j) + ");\n"; want_vals.push_back(tag + "TRUE"); } } }
     s += "print \"X:\" d.close();\n";
     RunOut ro = run_script(s); ev.add(ro.outcome); ev.add(ro.out);
+    if (ro.outcome != "ok" && !plan.value("stmt_ops", json::array()).empty() && (ro.errtext.find("Database Connection not open") != std::string::npos || ro.errtext.find("No query in progress") != std::string::npos || ro.errtext.find("Invalid arguments") != std::string::npos)) {
+      // the module's own, non-catchable refusal of an operation in a state that does not allow it: a legitimate end of the history (memory safety was still checked)
+      ++res.probes["sqlite_history_ended_by_module_refusal"]; unlink(db.c_str()); return; }
     if (ro.outcome != "ok") { fail(ro.outcome.find("parse_error") != std::string::npos ? "M/harness-script-rejected" : "C18/sqlite-script-failed", ro.outcome + " " + ro.errtext); unlink(db.c_str()); return; }
     // the independent reader: libsqlite3 directly
     sqlite3* h = nullptr; if (sqlite3_open_v2(db.c_str(), &h, SQLITE_OPEN_READONLY, nullptr) != SQLITE_OK) { fail("C18/sqlite-database-unreadable", db); unlink(db.c_str()); return; }
